@@ -15,6 +15,7 @@ import os
 import signal
 import subprocess
 import sys
+import tempfile
 import time
 import traceback
 
@@ -262,10 +263,63 @@ def fresh_replay(pid, path):
     return p.returncode == 1 and "VIOLATION property=%s" % pid in p.stdout
 
 
+def _digest_under(pid, path, hashseed):
+    env = dict(os.environ)
+    env["PYTHONHASHSEED"] = str(hashseed)
+    env["PYTHONUTF8"] = "1"
+    p = subprocess.run([sys.executable, os.path.join(VERIF_DIR, "run_check.py"), pid,
+                        "--case-digest", path], env=env, capture_output=True, text=True,
+                       timeout=600)
+    for line in p.stdout.splitlines():
+        if line.startswith("DIGEST "):
+            return line.split(" ", 1)[1]
+    raise HarnessError("case-digest subprocess failed: %s %s" % (p.stdout[-500:],
+                                                                 p.stderr[-500:]))
+
+
+def hashseed_sweep(mod, pid, seed, tier, count, jobs, merged):
+    """S7: the same runs under other PYTHONHASHSEED values must give identical digests."""
+    mine = dict(merged["digests"])
+    count = min(count, len(mine))
+    bad = []
+    for hs in (1, 31337):
+        fd, tmp = tempfile.mkstemp(prefix="verif-digests-")
+        os.close(fd)
+        try:
+            env = dict(os.environ)
+            env["PYTHONHASHSEED"] = str(hs)
+            env["PYTHONUTF8"] = "1"
+            env["VERIF_SEED"] = str(seed)
+            p = subprocess.run([sys.executable, os.path.join(VERIF_DIR, "run_check.py"), pid,
+                                "--tier", tier, "--runs", str(count), "--jobs", str(jobs),
+                                "--digests", tmp, "--no-evidence", "--no-hashseed-sweep"],
+                               env=env, capture_output=True, text=True, timeout=3600)
+            if p.returncode not in (0, 1):
+                raise HarnessError("hash-seed sweep subprocess failed: %s" % p.stderr[-800:])
+            with open(tmp) as f:
+                for line in f:
+                    i, d = line.split()
+                    if int(i) in mine and mine[int(i)] != d:
+                        bad.append((int(i), hs))
+        finally:
+            os.unlink(tmp)
+    return count, sorted(set(bad))
+
+
 def do_replay(mod, pid, path):
     with open(path) as f:
         data = json.load(f)
     case = data["case"]
+    if data.get("hashseed_pair"):
+        a, b = data["hashseed_pair"]
+        da, db = _digest_under(pid, path, a), _digest_under(pid, path, b)
+        if da == db:
+            print("replay %s: identical under PYTHONHASHSEED %s and %s" % (path, a, b))
+            return 0
+        print("replay %s: event log differs between PYTHONHASHSEED=%s (%s) and %s (%s)" %
+              (path, a, da, b, db))
+        print("VIOLATION property=%s replay=%s" % (pid, path))
+        return 1
     out = safe_execute(mod, case)
     if out.violation is None:
         print("replay %s: no violation (property held on this case)" % path)
@@ -291,12 +345,19 @@ def main(argv=None):
     ap.add_argument("--replay")
     ap.add_argument("--no-evidence", action="store_true")
     ap.add_argument("--digests", help="write per-run digests to this file (self-test)")
+    ap.add_argument("--case-digest", help="execute the case in this replay file, print digest")
+    ap.add_argument("--no-hashseed-sweep", action="store_true")
     args = ap.parse_args(argv)
     _ensure_env()
     pid = args.property.upper()
     t0 = time.monotonic()
     try:
         mod = load_property(pid)
+        if args.case_digest:
+            with open(args.case_digest) as f:
+                out = safe_execute(mod, json.load(f)["case"])
+            print("DIGEST %s %s" % (out.digest, json.dumps(out.violation)))
+            return 0
         if args.replay:
             return do_replay(mod, pid, args.replay)
         seed = int(os.environ.get("VERIF_SEED", "0"))
@@ -348,6 +409,25 @@ def main(argv=None):
                 raise HarnessError("violation of run %d (%r) did not reproduce in a fresh "
                                    "interpreter from %s" % (i, v, path))
             reported.append((i, out.violation, path, execs))
+
+        hs_info = None
+        hs_runs = getattr(mod, "HASHSEED_RUNS", {}).get(args.tier, 0)
+        if hs_runs and not args.no_hashseed_sweep and not reported:
+            n, bad = hashseed_sweep(mod, pid, seed, args.tier, hs_runs, jobs, merged)
+            hs_info = {"runs_compared": n, "hash_seeds": [0, 1, 31337],
+                       "divergent_runs": len(bad)}
+            for (i, hs) in bad[:1]:
+                case = mod.generate(seed, i, args.tier)
+                path = write_replay(pid, seed, i, case,
+                                    {"clause": "outcome-depends-on-hash-order", "op": "run",
+                                     "detail": "event log differs under PYTHONHASHSEED=%d" % hs})
+                with open(path) as f:
+                    data = json.load(f)
+                data["hashseed_pair"] = [0, hs]
+                with open(path, "w") as f:
+                    json.dump(data, f, indent=1, sort_keys=True)
+                reported.append((i, data["violation"], path, 0))
+        merged["hashseed"] = hs_info
 
         if args.digests:
             with open(args.digests, "w") as f:
@@ -408,6 +488,8 @@ def write_evidence(mod, pid, tier, seed, runs, jobs, m, reported, wall_total, wa
         "workers": jobs,
         "exhaustive": False,
     }
+    if m.get("hashseed"):
+        cov["hash_seed_sweep"] = m["hashseed"]
     if hasattr(mod, "evidence_extra"):
         cov.update(mod.evidence_extra(m))
     ev = {
